@@ -1,11 +1,11 @@
-\* template: checks/C11.py substitutes EP / Strength / Mode / NSample per run
+\* quick tier: exhaustive exploration of the strength-2 design of every entry point (all invariants) + row emission
+\* (checks/C11.py rewrites Strength / NSample / EPs for the thorough tier)
 SPECIFICATION GenSpec
 CONSTANTS
-  EPs = {"station.ingest"}
-  MissingGuards = {}
-  EP = "station.ingest"
+  EPs = {"station.ingest", "station.wrap", "transport.params", "regproc", "api", "dnsreg", "responder", "msgformat", "rdatatxt"}
   Strength = 2
-  Mode = "design"
-  NSample = 0
-INVARIANT Emit
+  MissingGuards = {}
+  Modes = {"design", "sample"}
+  NSample = 3000
+INVARIANTS TypeOK NeverCrash NeverHangs NoFourthValue AlwaysAnswersHTTP AcceptedOnlyWhenComplete StatusMatchesOutcome NominalAccepted Emit
 CHECK_DEADLOCK FALSE
